@@ -25,6 +25,9 @@ type crashScope struct {
 	reach   map[*ssa.Function]bool
 	funcs   []*ssa.Function
 	entries []*ssa.Function
+	// resolvedWrappers: functions analysed with the axiom "a reference wrapper's Value is non-nil"
+	// although the rest of the scope does not assume it (C20: the value-validation subtree)
+	resolvedWrappers map[*ssa.Function]bool
 }
 
 func newCrashScope(p *core.Prog, id string, entries []*ssa.Function) *crashScope {
@@ -100,6 +103,8 @@ func c10(r *core.Report) {
 	crashIndex(r, cs, 10)
 	crashLib(r, cs, 3)
 	crashHash(r, cs, 10)
+	crashBound(r, cs, 3)
+	crashIfaceNil(r, cs, 1)
 	crashRec(r, cs, nil, nil)
 	crashNil(r, cs)
 }
@@ -1512,4 +1517,373 @@ func hashableValue(p *core.Prog, v ssa.Value, depth int) string {
 		}
 	}
 	return ""
+}
+
+// ---------------------------------------------------------------- bound
+
+// crashBound: an integer parsed from text (strconv.Atoi/ParseInt/ParseUint) in traffic-reachable code
+// decides how much work is done: it must not size an allocation or bound a counting loop unless it
+// was first compared with an independent upper bound (a length, a constant, a schema limit). A tiny
+// request such as filter[ids][9999999999]=1 otherwise makes the validator allocate and loop without
+// limit -- the "hang" the property excludes.
+func crashBound(r *core.Report, cs *crashScope, floor int) {
+	p := r.Prog
+	r.RunRule(cs.id+".bound", "integers parsed from text (strconv.Atoi/ParseInt/ParseUint): a value derived from one (through conversions, arithmetic, running maxima) that sizes an allocation (make) or is the limit a loop counter is compared with must be dominated by an upper-bound comparison against a value not derived from the parsed text; parsed values that are only returned, stored or used as data have no such use", floor, func() {
+		perFn := map[string]int{}
+		for _, fn := range cs.funcs {
+			fname := shortFn(fn)
+			for _, b := range fn.Blocks {
+				for _, in := range b.Instrs {
+					call, ok := in.(*ssa.Call)
+					if !ok {
+						continue
+					}
+					sc := call.Common().StaticCallee()
+					if sc == nil {
+						continue
+					}
+					switch sc.String() {
+					case "strconv.Atoi", "strconv.ParseInt", "strconv.ParseUint":
+					default:
+						continue
+					}
+					short := strings.TrimPrefix(sc.String(), "strconv.")
+					perFn[fname+short]++
+					key := fmt.Sprintf("bound:%s/%s#%d", fname, short, perFn[fname+short])
+					derived := map[ssa.Value]bool{}
+					var work []ssa.Value
+					add := func(v ssa.Value) {
+						if !derived[v] {
+							derived[v] = true
+							work = append(work, v)
+						}
+					}
+					// containers: local slices/arrays that hold a derived value (keys = append(keys, n))
+					containers := map[ssa.Value]bool{}
+					addC := func(v ssa.Value) {
+						if !containers[v] {
+							containers[v] = true
+							work = append(work, v)
+						}
+					}
+					add(call)
+					for len(work) > 0 {
+						v := work[0]
+						work = work[1:]
+						if v.Referrers() == nil {
+							continue
+						}
+						if containers[v] {
+							for _, ref := range *v.Referrers() {
+								switch x := ref.(type) {
+								case *ssa.Slice:
+									addC(x)
+								case *ssa.Phi:
+									addC(x)
+								case *ssa.Call:
+									if bi, ok := x.Common().Value.(*ssa.Builtin); ok && bi.Name() == "append" {
+										addC(x)
+									}
+								case *ssa.IndexAddr:
+									if x.X == v && x.Referrers() != nil {
+										for _, u := range *x.Referrers() {
+											if ld, ok := u.(*ssa.UnOp); ok && ld.Op == token.MUL {
+												add(ld)
+											}
+										}
+									}
+								case *ssa.Index:
+									add(x)
+								}
+							}
+							if !derived[v] {
+								continue
+							}
+						}
+						for _, ref := range *v.Referrers() {
+							switch x := ref.(type) {
+							case *ssa.Store:
+								if x.Val == v {
+									if ia, ok := x.Addr.(*ssa.IndexAddr); ok {
+										addC(ia.X)
+									}
+								}
+							case *ssa.Extract:
+								if x.Index == 0 {
+									add(x)
+								}
+							case *ssa.Convert:
+								if b, ok := x.Type().Underlying().(*types.Basic); ok && b.Info()&types.IsInteger != 0 {
+									add(x)
+								}
+							case *ssa.ChangeType:
+								add(x)
+							case *ssa.Phi:
+								add(x)
+							case *ssa.BinOp:
+								switch x.Op {
+								case token.ADD, token.SUB, token.MUL, token.SHL:
+									add(x)
+								}
+							}
+						}
+					}
+					var sinks []string
+					bad := ""
+					for v := range derived {
+						if v.Referrers() == nil {
+							continue
+						}
+						for _, ref := range *v.Referrers() {
+							what := ""
+							switch x := ref.(type) {
+							case *ssa.MakeSlice:
+								if x.Len == v || x.Cap == v {
+									what = "sizes the allocation make(" + x.Type().String() + ", n)"
+								}
+							case *ssa.MakeMap:
+								if x.Reserve == v {
+									what = "sizes the allocation of a map"
+								}
+							case *ssa.MakeChan:
+								if x.Size == v {
+									what = "sizes a channel"
+								}
+							case *ssa.Call:
+								if c := x.Common().StaticCallee(); c != nil && (c.String() == "strings.Repeat" || c.String() == "bytes.Repeat") && len(x.Common().Args) == 2 && x.Common().Args[1] == v {
+									what = "is the count of " + c.String()
+								}
+							case *ssa.BinOp:
+								switch x.Op {
+								case token.LSS, token.LEQ, token.GTR, token.GEQ, token.NEQ:
+								default:
+									continue
+								}
+								other := x.X
+								if other == v {
+									other = x.Y
+								}
+								if derived[other] || !isLoopCounter(other) {
+									continue
+								}
+								what = "is the limit of the counting loop at " + p.Pos(x.Pos())
+							}
+							if what == "" {
+								continue
+							}
+							sinks = append(sinks, what)
+							if !upperBounded(derived, ref.Block()) && bad == "" {
+								bad = what
+							}
+						}
+					}
+					sort.Strings(sinks)
+					switch {
+					case bad != "":
+						r.Bad(key, p.Pos(call.Pos()), fmt.Sprintf("the integer parsed here %s, and no comparison with an independent upper bound (a length, a constant, a schema limit) dominates that use: a short input holding a huge number makes the function allocate or iterate without limit", bad))
+					case len(sinks) > 0:
+						r.OK(key, p.Pos(call.Pos()), "bounded before it "+sinks[0])
+					default:
+						r.OK(key, p.Pos(call.Pos()), "the parsed value sizes no allocation and limits no counting loop in this function")
+					}
+				}
+			}
+		}
+	})
+}
+
+// isLoopCounter: a phi one of whose incoming values is itself plus or minus a constant.
+func isLoopCounter(v ssa.Value) bool {
+	phi, ok := v.(*ssa.Phi)
+	if !ok {
+		return false
+	}
+	for _, e := range phi.Edges {
+		if bo, ok := e.(*ssa.BinOp); ok && (bo.Op == token.ADD || bo.Op == token.SUB) {
+			if bo.X == ssa.Value(phi) {
+				if _, isC := bo.Y.(*ssa.Const); isC {
+					return true
+				}
+			}
+		}
+	}
+	return false
+}
+
+// upperBounded: some comparison of a derived value with a value that is neither derived nor a loop
+// counter bounds it from above on the way to blk: `d > x` / `d >= x` whose true branch does not lead
+// to blk, or `d < x` / `d <= x` whose true branch dominates blk (and the mirrored forms).
+func upperBounded(derived map[ssa.Value]bool, blk *ssa.BasicBlock) bool {
+	for d := range derived {
+		if d.Referrers() == nil {
+			continue
+		}
+		for _, ref := range *d.Referrers() {
+			bo, ok := ref.(*ssa.BinOp)
+			if !ok {
+				continue
+			}
+			op := bo.Op
+			other := bo.Y
+			if bo.Y == d {
+				other = bo.X
+				switch op { // mirror: other OP d  ==  d OP' other
+				case token.LSS:
+					op = token.GTR
+				case token.LEQ:
+					op = token.GEQ
+				case token.GTR:
+					op = token.LSS
+				case token.GEQ:
+					op = token.LEQ
+				}
+			}
+			if derived[other] || isLoopCounter(other) {
+				continue
+			}
+			if bo.Referrers() == nil {
+				continue
+			}
+			for _, u := range *bo.Referrers() {
+				iff, ok := u.(*ssa.If)
+				if !ok {
+					continue
+				}
+				t, f := iff.Block().Succs[0], iff.Block().Succs[1]
+				switch op {
+				case token.GTR, token.GEQ:
+					// too large -> true branch; the use must be on the other side
+					if len(f.Preds) == 1 && f.Dominates(blk) {
+						return true
+					}
+				case token.LSS, token.LEQ:
+					if len(t.Preds) == 1 && t.Dominates(blk) {
+						return true
+					}
+				}
+			}
+		}
+	}
+	return false
+}
+
+// ---------------------------------------------------------------- typed nil in an interface
+
+// crashIfaceNil: a pointer that a call returned together with an error is nil when the error is
+// not; wrapped in an interface it is a non-nil interface holding a nil pointer, which passes every
+// `!= nil` test and crashes at the first method call. Wherever such a pointer is converted to an
+// interface, the conversion must happen on the `err == nil` side, or the interface must not leave
+// the function (return, store) on the error side.
+func crashIfaceNil(r *core.Report, cs *crashScope, floor int) {
+	p := r.Prog
+	r.RunRule(cs.id+".ifacenil", "typed nil in an interface: a pointer result of a call that also returns an error (nil when the error is not), once converted to an interface, is returned or stored only where the error was tested nil — on the error side the function hands out an untyped nil instead", floor, func() {
+		perFn := map[string]int{}
+		for _, fn := range cs.funcs {
+			fname := shortFn(fn)
+			for _, b := range fn.Blocks {
+				for _, in := range b.Instrs {
+					mi, ok := in.(*ssa.MakeInterface)
+					if !ok {
+						continue
+					}
+					ex, ok := mi.X.(*ssa.Extract)
+					if !ok {
+						continue
+					}
+					if _, isPtr := ex.Type().Underlying().(*types.Pointer); !isPtr {
+						continue
+					}
+					call, ok := ex.Tuple.(*ssa.Call)
+					if !ok {
+						continue
+					}
+					sig := call.Common().Signature()
+					errIdx := -1
+					for i := 0; i < sig.Results().Len(); i++ {
+						if i != ex.Index && isErrorType(sig.Results().At(i).Type()) {
+							errIdx = i
+						}
+					}
+					if errIdx < 0 {
+						continue
+					}
+					perFn[fname]++
+					key := fmt.Sprintf("ifacenil:%s#%d", fname, perFn[fname])
+					// the error value of the same call
+					var errV ssa.Value
+					if call.Referrers() != nil {
+						for _, ref := range *call.Referrers() {
+							if e2, ok := ref.(*ssa.Extract); ok && e2.Index == errIdx {
+								errV = e2
+							}
+						}
+					}
+					// escapes of the interface value (through phis): returns and stores
+					bad := ""
+					seen := map[ssa.Value]bool{}
+					var walk func(v, ev ssa.Value)
+					walk = func(v, ev ssa.Value) {
+						if seen[v] || v.Referrers() == nil || bad != "" {
+							return
+						}
+						seen[v] = true
+						for _, ref := range *v.Referrers() {
+							switch x := ref.(type) {
+							case *ssa.Phi:
+								// the error travels in a sibling phi that takes it on the same edges
+								var ev2 ssa.Value
+								if ev != nil {
+									for _, in2 := range x.Block().Instrs {
+										e2, ok := in2.(*ssa.Phi)
+										if !ok {
+											break
+										}
+										match := e2 != x && len(e2.Edges) == len(x.Edges)
+										for i := range x.Edges {
+											if match && (x.Edges[i] == v) != (e2.Edges[i] == ev) {
+												match = false
+											}
+										}
+										if match {
+											ev2 = e2
+										}
+									}
+								}
+								walk(x, ev2)
+							case *ssa.Return, *ssa.Store, *ssa.MapUpdate:
+								if st, ok := x.(*ssa.Store); ok {
+									if st.Val != v {
+										continue
+									}
+									// the argument array of a variadic call (fmt.Errorf("%v", p)) is not an escape
+									if ia, ok := st.Addr.(*ssa.IndexAddr); ok {
+										if _, isLocal := ia.X.(*ssa.Alloc); isLocal {
+											continue
+										}
+									}
+								}
+								if ev == nil || !core.NilEdgeDominates(ev, ref.Block()) {
+									what := "returned"
+									if _, isRet := x.(*ssa.Return); !isRet {
+										what = "stored"
+									}
+									bad = fmt.Sprintf("%s at %s where the error of the call has not been tested nil", what, p.Pos(ref.Pos()))
+								}
+							}
+						}
+					}
+					walk(mi, errV)
+					callee := "a call"
+					if sc := call.Common().StaticCallee(); sc != nil {
+						callee = sc.String()
+					}
+					if bad != "" {
+						r.Bad(key, p.Pos(mi.Pos()), fmt.Sprintf("the pointer result of %s is converted to %s and %s: when the call fails the interface holds a nil pointer, is not == nil, and the first method call on it crashes", callee, mi.Type(), bad))
+					} else {
+						r.OK(key, p.Pos(mi.Pos()), fmt.Sprintf("the %s built from the result of %s leaves the function only where the call's error is nil", mi.Type(), callee))
+					}
+				}
+			}
+		}
+	})
 }
